@@ -312,6 +312,11 @@ func NewHTTPTargeter(src io.Reader, body []byte, hdr http.Header) Targeter {
 				break
 			} else if strings.HasPrefix(line, "#") {
 				continue
+			} else if startsWithHTTPMethod(line) {
+				// The next target starts right after a comment. Leave its
+				// request line for the next call.
+				sc.peeked = line
+				break
 			} else if strings.HasPrefix(line, "@") {
 				if tgt.Body, err = os.ReadFile(line[1:]); err != nil {
 					return fmt.Errorf("bad body: %w", err)
